@@ -496,9 +496,73 @@ fn read_sweep(cfg: &CfgLine, tables: &Tables, fresh_base: &mut u32) -> Vec<Op> {
     out
 }
 
+/// Key equality must depend on the WHOLE key. `master` is a long random secret; for every power-of-two
+/// length N the tenant keys `master[..N]:qa` / `master[..N]:zb` (and, in a long-admin case, the admin key
+/// `master:admin`) share their first N bytes. Bound to different databases, rotated among each other, and
+/// presented together with their look-alikes (the bare prefix, one more byte, another last byte, upper
+/// case, a trailing / leading blank) on both databases and on the root route.
+fn key_family_scenario(g: &mut Gen, master: &str, out: &mut Vec<Op>) -> Vec<String> {
+    let cfg = g.cfg.clone();
+    let mut last = Vec::new();
+    for n in [NAME_A, NAME_B] {
+        let f = g.fresh();
+        out.push(admin_req(&cfg, "db.connect", Some(n), None, &f));
+    }
+    for len in [16usize, 32, 64, 128, 256, 512] {
+        let p = &master[..len];
+        let (ka, kb, ka2) = (format!("{p}:qa"), format!("{p}:zb"), format!("{p}:qa2"));
+        let family = vec![
+            ka.clone(),
+            kb.clone(),
+            ka2.clone(),
+            p.to_string(),
+            format!("{ka}x"),
+            format!("{p}:qb"),
+            ka.to_uppercase(),
+            format!("{ka} "),
+            format!(" {ka}"),
+            format!("{p}:admin"),
+        ];
+        let sweep = |g: &mut Gen, out: &mut Vec<Op>| {
+            for (i, k) in family.iter().enumerate() {
+                for (j, target) in [Target::Db { name: NAME_A.into(), pct: false }, Target::Db { name: NAME_B.into(), pct: false }, Target::Root].into_iter().enumerate() {
+                    let f = g.fresh();
+                    out.push(Op::Req(Req {
+                        verb: "POST".into(),
+                        target,
+                        raw: None,
+                        auth: Some(format!("Bearer {k}").into_bytes()),
+                        ct: Some(if (i + j) % 2 == 0 { Enc::Cbor } else { Enc::Json }),
+                        accept: None,
+                        body: Body::Rpc { method: "info".into(), name: None, key: None, fresh: f, pvar: "d".into() },
+                    }));
+                }
+            }
+        };
+        let f = g.fresh();
+        out.push(admin_req(&cfg, "db.set_api_key", Some(NAME_A), Some(&ka), &f));
+        let f = g.fresh();
+        out.push(admin_req(&cfg, "db.set_api_key", Some(NAME_B), Some(&kb), &f));
+        sweep(g, out);
+        // rotate A to a key that shares the whole old key as a prefix: the old one must stop working
+        let f = g.fresh();
+        out.push(admin_req(&cfg, "db.set_api_key", Some(NAME_A), Some(&ka2), &f));
+        sweep(g, out);
+        if g.rng.chance(1, 4) {
+            out.push(if g.rng.chance(1, 2) { Op::Crash } else { Op::Restart });
+            sweep(g, out);
+        }
+        last = vec![ka, kb, ka2];
+    }
+    last
+}
+
 fn gen_case(rng: &mut Rng, tables: &Tables, thorough: bool) -> Vec<String> {
+    // a long random deployment secret (hex): tenant keys and, in one case out of four, the admin key derive from it
+    let master: String = (0..600).map(|_| char::from_digit(rng.below(16) as u32, 16).unwrap()).collect();
+    let long_admin = rng.chance(1, 4);
     let cfg = CfgLine {
-        admin: if rng.chance(7, 8) { Some(ADMIN_KEY.to_string()) } else { None },
+        admin: if long_admin { Some(format!("{master}:admin")) } else if rng.chance(7, 8) { Some(ADMIN_KEY.to_string()) } else { None },
         primary: PRIMARY.to_string(),
         max: *rng.pick(&[64usize, 64, 64, 64, 3, 2, 1]),
     };
@@ -520,6 +584,11 @@ fn gen_case(rng: &mut Rng, tables: &Tables, thorough: bool) -> Vec<String> {
     if g.cfg.admin.is_some() && g.rng.chance(1, 2) {
         fault_scenarios(&mut g, &mut ops);
     }
+    if g.cfg.admin.is_some() && (long_admin || g.rng.chance(1, 3)) {
+        for k in key_family_scenario(&mut g, &master, &mut ops) {
+            g.keys.insert(k);
+        }
+    }
     let keys = g.keys.clone();
     let mut fb = 500;
     if g.rng.chance(1, 2) {
@@ -527,7 +596,18 @@ fn gen_case(rng: &mut Rng, tables: &Tables, thorough: bool) -> Vec<String> {
     }
     let mut fb = 1000;
     let full = thorough && g.rng.chance(1, 4);
-    ops.extend(matrix(g.rng, &cfg, &keys, tables, &mut fb, full));
+    let mut m = matrix(g.rng, &cfg, &keys, tables, &mut fb, full);
+    if long_admin {
+        // every line of this case carries a 600-byte key: a sixth of the matrix (cells stay CBOR/JSON twins)
+        let mut kept = Vec::with_capacity(m.len() / 5);
+        for pair in m.chunks(2) {
+            if g.rng.chance(1, 6) {
+                kept.extend_from_slice(pair);
+            }
+        }
+        m = kept;
+    }
+    ops.extend(m);
     ops.iter().map(|o| o.to_line()).collect()
 }
 
